@@ -345,6 +345,8 @@ void big_case(vt::Rng& rng, int64_t icase)
     {
         int64_t            n, chunk, kind;
         std::vector<rec_t> recs;
+        int64_t            raise{1}, permille{0}, nthrow{0}, outcome{0}, ret{0};
+        uint64_t           tseed{0};
     };
     std::vector<out_t> outs(static_cast<size_t>(ncallers));
     for (auto& out : outs)
@@ -353,6 +355,9 @@ void big_case(vt::Rng& rng, int64_t icase)
         out.n     = rng.coin(1, 8) ? rng.range(0, 3) : rng.range(0, rng.coin(1, 4) ? 5000 : 400);
         out.chunk = out.kind == 1 ? (rng.coin(1, 6) ? out.n + 1 : rng.range(1, std::max<int64_t>(1, out.n / rng.range(1, 40)))) : 1;
         out.chunk = std::clamp<int64_t>(out.chunk, 1, out.n + 1);
+        out.raise    = rng.coin(2, 3) ? 1 : 0;
+        out.permille = rng.coin(1, 3) ? (rng.coin(1, 2) ? 2 : 100) : 0;
+        out.tseed    = static_cast<uint64_t>(rng.range(0, 1 << 30));
     }
     {
         parallel::pool_t pool(static_cast<size_t>(nw));
@@ -364,22 +369,48 @@ void big_case(vt::Rng& rng, int64_t icase)
                 {
                     auto&      out = outs[static_cast<size_t>(c)];
                     std::mutex mutex;
+                    // the decision which tasks throw is taken up-front
+                    std::vector<char> throws(static_cast<size_t>(out.n) + 1U, 0);
+                    vt::Rng           trng(out.tseed);
+                    for (auto& t : throws)
+                    {
+                        t = static_cast<char>(trng.range(0, 999) < out.permille);
+                    }
                     const auto body = [&](int64_t begin, int64_t end, size_t tnum)
                     {
                         const auto sb = clock.fetch_add(1);
                         NANO_VERIF_YIELD(31);
-                        const auto se = clock.fetch_add(1);
-                        const std::scoped_lock lock(mutex);
-                        out.recs.push_back(rec_t{begin, end, static_cast<int64_t>(tnum), sb, se});
+                        const auto se    = clock.fetch_add(1);
+                        const auto threw = throws[static_cast<size_t>(begin)] != 0;
+                        {
+                            const std::scoped_lock lock(mutex);
+                            out.recs.push_back(rec_t{begin, end, static_cast<int64_t>(tnum), sb, se});
+                            out.nthrow += threw ? 1 : 0;
+                        }
+                        if (threw)
+                        {
+                            throw std::runtime_error("task failure");
+                        }
                     };
-                    if (out.kind == 0)
+                    try
                     {
-                        pool.map(out.n, [&](int64_t index, size_t tnum) { body(index, index + 1, tnum); });
+                        if (out.kind == 0)
+                        {
+                            pool.map(
+                                out.n, [&](int64_t index, size_t tnum) { body(index, index + 1, tnum); }, out.raise != 0);
+                        }
+                        else
+                        {
+                            pool.map(
+                                out.n, out.chunk, [&](int64_t begin, int64_t end, size_t tnum) { body(begin, end, tnum); },
+                                out.raise != 0);
+                        }
                     }
-                    else
+                    catch (const std::runtime_error&)
                     {
-                        pool.map(out.n, out.chunk, [&](int64_t begin, int64_t end, size_t tnum) { body(begin, end, tnum); });
+                        out.outcome = 1;
                     }
+                    out.ret = clock.fetch_add(1); // map() returned (or re-threw): every task of the call must have ended
                 });
         }
         for (auto& thread : threads)
@@ -412,7 +443,7 @@ void big_case(vt::Rng& rng, int64_t icase)
             se.push_back(r.se);
         }
         vt::put(vt::J("BigMap").i("workers", nw).i("n", out.n).i("chunk", out.chunk).i("maxtnum", maxtnum).a("bs", bs).a("es", es).a(
-            "tn", tn).a("sb", sb).a("se", se));
+            "tn", tn).a("sb", sb).a("se", se).b("raise", out.raise != 0).i("nthrow", out.nthrow).s("outcome", out.outcome == 0 ? "ok" : "rethrow").i("ret", out.ret));
     }
     g_record.store(true);
     verif::sink().store(&hook_sink);
